@@ -419,3 +419,50 @@ def r8(cx):
                              "`%s` leaves its %s search on a condition that reads `%s` (the cached first node beyond the OTHER bound): once an earlier run cached that node the "
                              "search stops on it and the cursor reports no entry although in-range keys exist" % (b.id, "backward" if lookup == "get_prev" else "forward", other))
     cx.floor("loop exits of SkiplistIterator searches", n, 1)
+
+
+LSM_MOVES = ("seek", "seek_first", "seek_last", "next", "prev")
+
+
+@rule("C09", "C09.R9", "every cursor: the bool a positioning method returns is computed after the last change to what valid() reads")
+def r9(cx):
+    """All cursor layers drive their children by the returned bool (`if iter.seek(k)? { step back } else { iter.seek_last() }`,
+    `while it.next()? {..}`), the public API by `valid()`.  The two agree only if the returned value is not older than the last
+    write to a field `valid()` depends on: a value taken from a call and returned AFTER a later write to such a field (e.g.
+    `mark_exhausted()` when the seek overshot the upper bound) makes a merge keep / drop the wrong child."""
+    f = cx.f
+    impls = {}
+    for b in f.scan_bodies():
+        if b.impl_trait and b.impl_trait.split("::")[-1].split("<")[0] == "LSMIterator":
+            impls.setdefault(b.self_ty, {})[b.name.split("::")[-1]] = b
+    n = 0
+    for ty, ms in sorted(impls.items()):
+        v = ms.get("valid")
+        if v is None:
+            continue
+        V, _ = self_field_summary(f, v, "may")
+        for mname in LSM_MOVES:
+            b = ms.get(mname)
+            if b is None:
+                continue
+            _, W = self_field_sites(f, b, "may")
+            mut = set()
+            for fld in V:
+                mut |= W.get(fld, set())
+            for i, j, lhs, rv, line in b.assigns():
+                if i not in b.live or lhs != [0] or rv[0] != "agg" or not rv[2]:
+                    continue
+                ex = rv[3] or {}
+                if "Ok" not in str(ex):
+                    continue
+                n += 1
+                o = origin_of_operand(b, rv[2][0], through_calls=False)
+                for c in o.calls:
+                    after_c = b.reachable_after([c.bb])
+                    stale = [m for m in sorted(mut) if m != c.bb and m in after_c and i in b.reachable_after([m], avoid={c.bb}) | {m}]
+                    cx.check(not stale, "`%s`: the returned bool (from `%s`) is not older than the last write to a field valid() reads" % (b.id, short(c)),
+                             "result-older-than-valid|%s|%s" % (ty.split("<")[0].split("::")[-1], mname), b.where(stale[0]) if stale else b.where(i),
+                             "`%s` returns the bool it got from `%s` although a field that `valid()` reads (%s) is written afterwards: the caller's "
+                             "`if it.%s(..)?` and `it.valid()` disagree, and a merge that re-positions children by the returned bool keeps an exhausted "
+                             "child or drops a live one" % (b.id, short(c), ", ".join(sorted(V)), mname))
+    cx.floor("Ok(bool) returns of LSMIterator positioning methods", n, 49)
